@@ -202,7 +202,8 @@ impl Scenario for Static {
                 edits.push((f, t));
             }
         }
-        serde_json::to_value(ResolveInput { sim, spec, sandbox: None, run_seed, reopen: vec![], preopen, edits }).unwrap()
+        let close_after_edits = !edits.is_empty() && rng.chance(400);
+        serde_json::to_value(ResolveInput { sim, spec, sandbox: None, run_seed, reopen: vec![], preopen, edits, close_after_edits }).unwrap()
     }
 
     fn exec(&self, input: &Value) -> RunOut {
@@ -223,6 +224,10 @@ impl Scenario for Static {
             out.count("fault.document_opened_before_scan", inp.preopen.len() as u64);
         }
         let edits = inp.edits.clone();
+        let close_after_edits = inp.close_after_edits;
+        if close_after_edits {
+            out.count("fault.edited_documents_closed_unsaved", 1);
+        }
         if !edits.is_empty() {
             out.count("fault.edit_on_warm_caches", edits.len() as u64);
         }
@@ -239,6 +244,14 @@ impl Scenario for Static {
                 // other documents only
                 if let Some(pf) = spec3.files.iter_mut().find(|pf| pf.rel == *f) {
                     pf.items = vec![Item::Raw { text: t.clone() }];
+                }
+            }
+            if close_after_edits {
+                // queries on the edited state fill the caches; then the documents are closed unsaved: the files on disk
+                // are what the server reads from now on
+                let _ = collect(prop, db, root, &spec3);
+                for (f, _) in &edits {
+                    db.cleanup_file_cache(&root.join(f));
                 }
             }
             collect(prop, db, root, &spec3)
